@@ -163,3 +163,26 @@ Example C12_ex_hex_varint :
   parse_at i_ByteSwapped_Int24ub [] [x01; x02; x03] 0 = parse_at n_Int24ul [] [x01; x02; x03] 0.
 Proof. split; vm_compute; reflexivity. Qed.
 ''')
+
+PROPS['C15'] = dict(
+    title='C15 - byte transforms invert exactly and match their definition',
+    theorems=[
+        ('TransformFacts', 'xor_cycle_involutive', 'Cyclic XOR with any non-empty key, any data: applying it twice is the identity (build inverts parse).'),
+        ('TransformFacts', 'xor_single_is_cycle', 'The single-byte shortcut equals the general cyclic definition.'),
+        ('TransformFacts', 'xor_zero_is_identity', 'The all-zero-key shortcut equals the general cyclic definition.'),
+        ('TransformFacts', 'xor_data_involutive', 'ProcessXor\'s key handling (integer, one-byte string, byte string, zero shortcuts) is an involution on the data.'),
+        ('TransformFacts', 'processxor_build', 'What build emits is the XOR transform of the inner construct\'s bytes.'),
+        ('TransformFacts', 'processxor_parse', 'The inner construct is presented with the XOR transform of the rest of the stream, at absolute offsets.'),
+        ('TransformFacts', 'swapbytes_involutive', 'Byte-order swapping is an involution.'),
+        ('TransformFacts', 'swapbitsinbytes_involutive', 'Bit-order swapping is an involution.'),
+        ('TransformFacts', 'bitrev8_spec', 'Per-byte bit swapping is reversal of the 8-bit MSB-first bit list (all 256 bytes).'),
+        ('TransformFacts', 'rotl8_inverse', 'Group size 1: rotating a byte left by a and then by 8-a is the identity, every amount, every byte.'),
+        ('TransformFacts', 'rotate_left_rejects', 'Data whose length is not a multiple of the group is rejected.'),
+        ('TransformFacts', 'processrotl_amounts', 'The amounts used by parse (a) and build (-a), reduced modulo the group width, cancel.'),
+    ],
+    examples='''
+Example C15_ex_rotate :
+  parse_at (CProcessRotl (XConst (VInt 12)) (XConst (VInt 3)) CGreedyBytes) [] [x12; x34; x56] 0 = Ok (VBytes [x45; x61; x23], 3%Z) /\\
+  build_bytes (CProcessRotl (XConst (VInt 12)) (XConst (VInt 3)) CGreedyBytes) (VBytes [x45; x61; x23]) [] = Ok (VBytes [x45; x61; x23], [x12; x34; x56]).
+Proof. split; vm_compute; reflexivity. Qed.
+''')
